@@ -88,6 +88,45 @@ def mutants2(every):
     return out
 
 
+SWAPS = [('readInt(', 'readUint('), ('readUint(', 'readInt('), ('DATA_TYPE::BYTE', 'DATA_TYPE::WORD'), ('DATA_TYPE::WORD', 'DATA_TYPE::BYTE'),
+         ('_firstFrame', '_lastFrame'), ('_lastFrame', '_firstFrame'), ('nb3dPoints', 'nbAnalogs'), ('nbAnalogs()', 'nb3dPoints()'), ('"POINT"', '"ANALOG"'), ('"ANALOG"', '"POINT"'),
+         ('"USED"', '"FRAMES"'), ('"FRAMES"', '"USED"'), ('"LABELS"', '"DESCRIPTIONS"'), ('"RATE"', '"USED"'), ('std::ios::beg', 'std::ios::cur'), ('std::ios::cur', 'std::ios::beg'),
+         ('.x(', '.y('), ('.z(', '.residual('), ('_data[0]', '_data[1]'), ('_data[3]', '_data[2]'), ('nbSubframes()', 'nbChannels()'), ('_nbAnalogByFrame', '_nbAnalogsMeasurement'),
+         ('valuesAsInt()', 'valuesAsByte()'), ('DATA_TYPE::INT', 'DATA_TYPE::BYTE'), ('DATA_TYPE::FLOAT', 'DATA_TYPE::INT'), ('_param_data_int', '_param_data_float'),
+         ('invalid_argument', 'runtime_error'), ('out_of_range', 'invalid_argument'), ('range_error', 'invalid_argument'), ('toUpper(', '('), ('abs(', '('),
+         ('1*ezc3d', '2*ezc3d'), ('2*ezc3d', '1*ezc3d'), ('size_t', 'int'), ('unsigned int', 'int'), ('float', 'double'), (' const', ''), ('idx+1', 'idx'), ('i+1', 'i'), ('.back()', '.front()'),
+         ('push_back', 'emplace_back'), ('std::string &', 'std::string '), ('Frame &', 'Frame ')]
+
+
+def mutants3(every):
+    """third operator set: an identifier / constant replaced by a sibling of the same kind"""
+    out = []
+    k = 0
+    for fn in sorted(os.listdir(os.path.join(REPO, 'src'))):
+        if not fn.endswith('.cpp'):
+            continue
+        lines = open(os.path.join(REPO, 'src', fn)).read().split('\n')
+        inprint = False
+        for ln, line in enumerate(lines):
+            st = line.strip()
+            if '::print()' in line:
+                inprint = True
+            elif line.startswith('}'):
+                inprint = False
+            if inprint or not st or st.startswith('//') or st.startswith('#') or st.startswith('*') or 'std::cout' in line:
+                continue
+            code = line.split('//')[0].rstrip()
+            for a, b in SWAPS:
+                pos = code.find(a)
+                if pos < 0:
+                    continue
+                k += 1
+                if k % every:
+                    continue
+                out.append({'file': 'src/' + fn, 'line': ln + 1, 'old': line, 'new': code[:pos] + b + code[pos + len(a):], 'op': '%s -> %s' % (a, b)})
+    return out
+
+
 def work(args):
     idx, mut, wdir = args
     src = os.path.join(wdir, mut['file'])
@@ -150,6 +189,8 @@ def main():
             every = int(a[1]); a = a[2:]
         elif a[0] == '--set2':
             gen = mutants2; a = a[1:]
+        elif a[0] == '--set3':
+            gen = mutants3; a = a[1:]
         elif a[0] == '--out':
             outp = a[1]; a = a[2:]
         else:
